@@ -30,6 +30,12 @@ theorem not_pool_of_head {a : Addr} (h : a.toList.head? ≠ some 'P') (n : Nat) 
 
 theorem mod_ne_pool (n : Nat) : modAddr ≠ poolAddr n := not_pool_of_head (by decide) n
 
+/-- the ℕ-level range guard is the `sdkmath.Int` range check of `Irismod.Sdk` on non-negative values -/
+theorem ck_eq_chkInt (n : Nat) : (ck n).map (fun v => (v : Int)) = chkInt (n : Int) := by
+  unfold ck chkInt inInt256
+  simp only [Int.natAbs_natCast]
+  split <;> simp_all
+
 /-! ### bank primitives, net form -/
 
 theorem supplyOf_setBal (b : Bank) (a d v d') : (b.setBal a d v).supplyOf d' = b.supplyOf d' := rfl
